@@ -134,6 +134,10 @@ class Check:
                             out.append(dict(base, second=len(out)))                       # a second burst of losses on the same object
                             if min(mask) >= 3:
                                 out.append(dict(base, lead=2))                            # the record begins with two lost rows
+                        if fl in ('tail', 'first', 'none') and rate in (0.01, 0.5) and n in (5, 8) and len(mask) <= 1:
+                            for rows in (1, n + 2):
+                                out.append(dict(out[-1] if False else {'n': n, 'q0': [0.5, -0.5, 0.5, 0.5], 'w': [rate * x for x in axis], 'dt': 1.0, 'loss': mask,
+                                                'flips': flips, 'flip_pattern': fl, 'rate': rate}, via_dcm={'rows': rows, 'method': 'shepperd'}))
         # records whose consecutive rows are *exactly* orthogonal (dot product 0.0): walks through basis quaternions
         for n in range(3, min(nmax, 7) + 1):
             interior = list(range(1, n - 1))
@@ -158,7 +162,9 @@ class Check:
         fl = rnd.choice(FLIPS)
         return {'n': n, 'q0': W.rand_unit(rnd, 4), 'w': [rate * x for x in W.rand_unit(rnd)], 'dt': 1.0, 'loss': sorted(loss),
                 'flips': self._flip_list(fl, n, rnd), 'flip_pattern': fl, 'rate': rate, 'torn': rnd.choice([0, 0, rnd.randrange(1, 1 << 20)]),
-                'lead': rnd.choice([0, 0, 0, 1, 2]) if n >= 12 else 0, 'second': rnd.choice([0, rnd.randrange(1, 1 << 20)])}
+                'lead': rnd.choice([0, 0, 0, 1, 2]) if n >= 12 else 0, 'second': rnd.choice([0, rnd.randrange(1, 1 << 20)]),
+                'via_dcm': ({'rows': rnd.choice([1, 2, n - 1, n + 3, 2 * n]), 'method': rnd.choice(['shepperd', 'hughes', 'chiaverini', 'itzhack', 'sarabandi'])}
+                            if rate < 2.0 and rnd.random() < 0.25 else None)}
 
     # ------------------------------------------------------------------
     def run(self, scn):
@@ -179,15 +185,29 @@ class Check:
             return {'component': component, 'symptom': symptom, 'trigger': trigger, 'step': step, 'detail': detail}
 
         # what the recorder actually holds: the constructor normalises every row (documented, versors=True)
-        stored = np.array(ahrs.QuaternionArray(sent.copy()).array, dtype=float)
+        via = scn.get('via_dcm')
+
+        def load():
+            """The record as the recorder object holds it before any loss."""
+            if not via:
+                return ahrs.QuaternionArray(sent.copy())
+            # the recorder stores rotation matrices; they are loaded into an *existing* QuaternionArray object (which held
+            # 'rows' placeholder rows before) with from_DCM, the link's sign flips are applied afterwards
+            qa_ = ahrs.QuaternionArray(np.tile([1.0, 0.0, 0.0, 0.0], (int(via['rows']), 1)))
+            qa_.from_DCM(np.array([qm.q2R(x) for x in Q]), method=via['method'])
+            for i in scn['flips']:
+                qa_.array[i] *= -1.0
+            return qa_
+        stored = np.array(load().array, dtype=float)
 
         def build():
-            qa = ahrs.QuaternionArray(sent.copy())
+            qa = load()
+            tgt = qa.array if via else qa
             for i in lost:
                 for c in torn_components(scn, i):       # a torn row has lost only some of its components
-                    qa[i, c] = np.nan
+                    tgt[i, c] = np.nan
             for i in lead:
-                qa[i] = np.nan
+                tgt[i] = np.nan
             return qa
 
         # --- slerp_nan, both calling conventions
@@ -295,7 +315,7 @@ class Check:
                 r2 = random.Random(f"second/{scn['second']}")
                 lost2 = sorted(r2.sample(range(1, n - 1), min(n - 2, r2.randint(1, 3))))
                 for i in lost2:
-                    qa[i] = np.nan
+                    (qa.array if via else qa)[i] = np.nan
                 R2 = np.array(qa.slerp_nan(inplace=False), dtype=float) if scn['second'] % 3 == 0 else None
                 if R2 is None:
                     qa.slerp_nan(inplace=True)
@@ -320,7 +340,7 @@ class Check:
                 viol.append(v('slerp_nan', f'crash:{type(e).__name__}', 0, f'second repair of the same object raised {type(e).__name__}: {e}'))
         # --- remove_jumps on the NaN-free record (the link only flipped signs)
         try:
-            qa = ahrs.QuaternionArray(sent.copy())
+            qa = load()
             qa.remove_jumps()
             J = np.array(qa.array, dtype=float)
             log.add('jumps', J)
@@ -337,7 +357,7 @@ class Check:
         except Exception as e:          # noqa: BLE001
             viol.append(v('remove_jumps', f'crash:{type(e).__name__}', 0, f'{type(e).__name__}: {e}'))
         nontrivial = bool(lost) or bool(scn['flips'])
-        sig = f"{n}|{scn['rate']}|{scn.get('ortho')}|{scn.get('flip_pattern')}|{lost}|{scn.get('torn', 0)}|{scn.get('lead', 0)}|{scn.get('second', 0)}|{scn['flips'] if scn.get('flip_pattern') == 'random' else ''}|{scn['q0'][0]:.6f}" if nontrivial else None
+        sig = f"{n}|{scn['rate']}|{scn.get('ortho')}|{scn.get('flip_pattern')}|{lost}|{scn.get('torn', 0)}|{(scn.get('via_dcm') or {}).get('rows', '')}{(scn.get('via_dcm') or {}).get('method', '')}|{scn.get('lead', 0)}|{scn.get('second', 0)}|{scn['flips'] if scn.get('flip_pattern') == 'random' else ''}|{scn['q0'][0]:.6f}" if nontrivial else None
         log.add('viol', [(x['component'], x['symptom'], x['step']) for x in viol])
         return {'violations': viol, 'stats': stats, 'digest': log.digest(), 'sig': sig, 'sim_seconds': float(n) * scn['dt']}
 
